@@ -3,4 +3,9 @@ let () =
   match Sys.argv.(1) with
   | "c02step" -> C02drv.main ()
   | "c02run" -> C02drv.run_main ()
+  | "asmbatch" -> Asmdrv.main ()
+  | "asmoracle" -> Asmoracle.main ()
+  | "rtlproc" -> Rtldrv.proc_main ()
+  | "xsem" -> Xdrv.xsem_main ()
+  | "xisa" -> Xdrv.xisa_main ()
   | c -> prerr_endline ("unknown command " ^ c); exit 2
